@@ -17,6 +17,7 @@ pub fn generate(ctx: &GenCtx, profile: &str, run: u64) -> Option<Plan> {
         "lifecycle" => lifecycle(ctx, &mut rng, run, false),
         "lifecycle-full" => lifecycle(ctx, &mut rng, run, true),
         "callback" => callback(ctx, &mut rng, run)?,
+        "corners" => corners(ctx, &mut rng, run)?,
         "wire" => crate::gen2::wire(ctx, &mut rng, run),
         "wire-total" => crate::gen2::wire_total(ctx, &mut rng, run)?,
         "storage" => crate::gen2::storage(ctx, &mut rng, run)?,
@@ -322,3 +323,54 @@ pub fn callback_space_size() -> u64 {
 pub fn entries() -> [VerifyEntry; 3] {
     crate::lib_iface::ALL_ENTRIES
 }
+
+
+/// corners: the corners of the shape space enumerated, not sampled: every hash x every level count
+/// 1..8 x uniform w in {1,2,4,8} (cheapest height), plus mixed-w lists; signatures at the first, a middle
+/// and the last counter through both APIs, lifetime queries, one rejected callback, the walk past the end.
+pub fn corners(_ctx: &GenCtx, rng: &mut Rng, run: u64) -> Option<Plan> {
+    let ws = [1u32, 2, 4, 8, 0]; // 0 = mixed per level
+    let dims = [PLAIN_HASHES.len() as u64, 8, ws.len() as u64];
+    let total: u64 = dims.iter().product();
+    if run >= total {
+        return None;
+    }
+    let hash = PLAIN_HASHES[(run % 6) as usize];
+    let l = ((run / 6) % 8 + 1) as usize;
+    let w = ws[(run / 48) as usize];
+    if l > crate::BUILD_MAX_LEVELS {
+        return None;
+    }
+    let h = if H2_KNOWN { 2 } else { 5 };
+    if !H2_KNOWN && l > 4 {
+        return None; // 2^(5*l) leaves: middle/last counters are still cheap, but keep the twin small
+    }
+    let params: Vec<(u32, u32)> = (0..l).map(|i| (if w == 0 { [1u32, 8, 2, 4][(i + run as usize) % 4] } else { w }, h)).collect();
+    if !in_build_limits(&params) {
+        return None;
+    }
+    let mut plan = empty_plan();
+    plan.keys.push(KeyCfg { hash, params: params.clone(), seed: rng.bytes(hash.n()) });
+    plan.procs.push(0);
+    plan.ops.push(Op::Keygen { key: 0, aux: None });
+    plan.ops.push(Op::Lifetime { proc: 0 });
+    let leaves = 1u64 << (h as u64 * l as u64);
+    for c in [0, 1, leaves / 2 - 1, leaves / 2, leaves - 2] {
+        if c >= leaves {
+            continue;
+        }
+        plan.ops.push(Op::Inject { key: 0, counter: c });
+        plan.ops.push(Op::Sign { proc: 0, msg: msg(rng, hash.n()), api: Api::Fn, cb: Cb::Accept, aux: None });
+        plan.ops.push(Op::Lifetime { proc: 0 });
+    }
+    plan.ops.push(Op::Inject { key: 0, counter: leaves - 2 });
+    plan.ops.push(Op::Sign { proc: 0, msg: msg(rng, hash.n()), api: Api::Fn, cb: Cb::Reject, aux: None });
+    plan.ops.push(Op::Sign { proc: 0, msg: msg(rng, hash.n()), api: Api::Obj, cb: Cb::Accept, aux: None });
+    plan.ops.push(Op::Sign { proc: 0, msg: msg(rng, hash.n()), api: Api::Fn, cb: Cb::Accept, aux: None });
+    plan.ops.push(Op::Lifetime { proc: 0 });
+    plan.ops.push(Op::Sign { proc: 0, msg: msg(rng, hash.n()), api: Api::Fn, cb: Cb::Accept, aux: None });
+    plan.ops.push(Op::Sign { proc: 0, msg: msg(rng, hash.n()), api: Api::Obj, cb: Cb::Accept, aux: None });
+    plan.note = format!("enumerated corner: {}", crate::exec::shape_string(hash, &params));
+    Some(plan)
+}
+pub const CORNERS: u64 = 6 * 8 * 5;
